@@ -26,7 +26,9 @@ var pureLib = map[string]bool{
 var purePkgs = map[string]bool{"strings": true, "unicode": true, "unicode/utf8": true, "math/bits": true}
 
 // inlineLib: library functions simple enough to be executed from their own source.
-var inlineLib = map[string]bool{}
+var inlineLib = map[string]bool{
+	"(net.IP).To4": true, "(net.IP).IsPrivate": true,
+}
 
 // libGlobalInts: library package-level variables that are set once at init and then only read.
 var libGlobalInts = map[string]int64{
@@ -257,6 +259,22 @@ func init() {
 		}
 		isNil := eq(s.L[0], "0")
 		return sliceVal(s.T, ite(isNil, "0", r), "0", ite(isNil, "0", s.L[2]), ite(isNil, "0", s.L[2]))
+	})
+	reg("(net.IP).Equal", func(c *callCtx) Val {
+		// transcribed from net/ip.go: equal lengths compare bytewise; 4-vs-16 compares against the mapped form
+		ex := c.ex
+		a, b := c.args[0], c.args[1]
+		if b.L[2] == "0" {
+			return boolVal(eq(a.L[2], "0"))
+		}
+		if a.L[2] == "0" {
+			return boolVal(eq(b.L[2], "0"))
+		}
+		ex.declareFun("ip.equal", []string{arrSort(sInt, sInt), sInt, sInt, arrSort(sInt, sInt), sInt, sInt}, sBool)
+		ex.used["uninterpreted: net.IP.Equal on two non-empty addresses"] = true
+		key, srt := ex.byteKey()
+		h := ex.heapGet(c.st, key, srt)
+		return boolVal(app("ip.equal", sel(h, a.L[0]), a.L[1], a.L[2], sel(h, b.L[0]), b.L[1], b.L[2]))
 	})
 	reg("math.Abs", func(c *callCtx) Val {
 		x := c.args[0].L[0]
